@@ -66,18 +66,7 @@ class Driver(object):
         if i is None:
             ev.append({"st": "decode", "k": "none"})
             return ev
-        mn = i.mnemonic
-        ops = i.operands
-        hook = getattr(getattr(i.spec, "hook", None), "__name__", "?")
-        ev.append({"st": "decode", "k": "instr",
-                   "mnstr": 1 if isinstance(mn, str) else 0,
-                   "mnlen": len(mn) if isinstance(mn, str) else 0,
-                   "mn": mn if isinstance(mn, str) else "",
-                   "type": i.type if isinstance(i.type, int) and not isinstance(i.type, bool) else 99,
-                   "len": i.length,
-                   "opsl": 1 if isinstance(ops, (list, tuple)) else 0,
-                   "opk": D.operand_kinds(i),
-                   "hook": hook})
+        ev.append(decode_event(i))
         # the fetcher (system/core.py read_instruction) sets the address of what it decoded
         if i.address is None:
             try:
@@ -136,6 +125,11 @@ def gen_inputs(isa, rng, specs, fillings, nrandom):
     out = []
     for si, s in specs:
         for f in fillings:
+            if f == "pfxsib":
+                # structured: every prefix class x SIB/displacement forms (prefix ISAs only)
+                for tag, b in D.prefixed_sib_inputs(isa, s, si, rng):
+                    out.append(("spec:%d:%s" % (si, tag), b))
+                continue
             wp = isa.has_prefix and f.endswith("+p")
             fill = f[:-2] if f.endswith("+p") else f
             out.append(("spec:%d:%s" % (si, f), D.spec_inputs(isa, s, rng, fill, with_prefix=wp)))
@@ -210,6 +204,84 @@ def timed_chunk(args):
     t0 = time.process_time()
     o = run_chunk(args)
     return (args[0], args[1], time.process_time() - t0, len(o["traces"]))
+
+
+COPICKLE_PAIRS = [(("x86", "m32"), ("x64", "m64")), (("dwarf", "dw"), ("wasm", "wasm")),
+                  (("rv32i", "rv32"), ("rv64i", "rv64")), (("z80", "z80"), ("gb", "gb"))]
+
+
+def decode_event(i):
+    mn = i.mnemonic
+    ops = i.operands
+    return {"st": "decode", "k": "instr",
+            "mnstr": 1 if isinstance(mn, str) else 0,
+            "mnlen": len(mn) if isinstance(mn, str) else 0,
+            "mn": mn if isinstance(mn, str) else "",
+            "type": i.type if isinstance(i.type, int) and not isinstance(i.type, bool) else 99,
+            "len": i.length,
+            "opsl": 1 if isinstance(ops, (list, tuple)) else 0,
+            "opk": D.operand_kinds(i),
+            "hook": getattr(getattr(i.spec, "hook", None), "__name__", "?")}
+
+
+def _text(i):
+    """the rendering of the instruction in the installed syntax, as a short digest (str(i) IS the thing
+    observed here: the copy must render like the original)"""
+    import hashlib
+    r, exc = D.guarded(str, i)
+    if exc is not None:
+        return "raised:%s@%s" % (exc[0], exc[1])
+    return hashlib.sha1(r.encode("utf-8", "replace")).hexdigest()[:16] if isinstance(r, str) else "not-a-str"
+
+
+def copickle_task(args):
+    """two ISA modules whose specification tables share format strings live in ONE process (a saved session
+    holds instructions of several ISAs): instructions of both are pickled, the pickles are loaded back in
+    interleaved order, and every copy is compared (fingerprint incl. the spec's hook module, rendering) with
+    its original.  One trace per instruction: decode event + pickle event."""
+    (na, ma), (nb, mb), fillings, seed = args
+    D.watchdog_init()
+    D.mute_stdout()
+    A, B = D.Isa(na, ma), D.Isa(nb, mb)
+    D.quiet()
+    rng = random.Random("copickle/%s/%s/%d" % (na, nb, seed))
+    items = {}
+    for isa, other in ((A, nb), (B, na)):
+        lst = []
+        for src, b in gen_inputs(isa, rng, list(enumerate(isa.specs())), fillings, 0):
+            i, o = D.decode(isa, b)
+            if i is None:
+                continue
+            if i.address is None:
+                try:
+                    i.address = isa.cpu.cst(0x1000, isa.cpu.PC().size)
+                except Exception:
+                    pass
+            blob, exc = D.guarded(pickle.dumps, i)
+            lst.append({"m": "%s/%s+%s" % (isa.name, isa.mode, other), "src": src, "in": list(b), "dec": decode_event(i),
+                        "fp0": D.fingerprint(i, skip=()), "tx0": _text(i), "blob": blob, "exc": exc})
+        items[isa.name] = lst
+    # load back, alternating between the two ISAs
+    la, lb = items[na], items[nb]
+    order = []
+    for k in range(max(len(la), len(lb))):
+        if k < len(la):
+            order.append(la[k])
+        if k < len(lb):
+            order.append(lb[k])
+    traces = []
+    for it in order:
+        if it["exc"] is not None:
+            pe = {"st": "pickle", "k": "raised", "exc": it["exc"][0], "at": it["exc"][1]}
+        else:
+            j, exc = D.guarded(pickle.loads, it["blob"])
+            if exc is not None:
+                pe = {"st": "pickle", "k": "raised", "exc": exc[0], "at": exc[1]}
+            else:
+                pe = {"st": "pickle", "k": "ok", "fp0": it["fp0"], "fp1": D.fingerprint(j, skip=()),
+                      "tx0": it["tx0"], "tx1": _text(j)}
+        traces.append({"kind": "c17", "m": it["m"], "src": "copickle:" + it["src"], "in": it["in"], "ev": [it["dec"], pe]})
+    return {"pair": "%s+%s" % (na, nb), "traces": traces}
 
 
 def replay_one(args):
